@@ -21,7 +21,17 @@
    `proved_family r` is true for every report except: `RSgr` (an SGR sequence denotes a face
    modification, characterised by its meaning: C04_sgr_event) and `RFaceReport` with one of 7/27/39/49
    (known finding: C04_face_report_recorded states the recorded behaviour for every well-formed
-   parameter string).  Hence the `_partial` suffix of the two headline theorems. *)
+   parameter string).  Hence the `_partial` suffix of the two headline theorems.
+
+   Final state.  Counted theorems (11): C04_single_partial, C04_concat_partial, C04_chunking,
+   C04_key_table, C04_xterm_keys (every modifier mask 0..255 since crate fix 8f4107f),
+   C04_key_table_coverage, C04_sgr_event, C04_self_delimiting, C04_key_modifiers, C04_tables,
+   C04_cpr_vs_f3.  Audited, not counted: lemmas C04_fast_decode, C04_key_mask8_decodes, C04_da_set,
+   C04_face_report_recorded; examples C04_nonvacuous, C04_f3_mask8_not_wf, C04_sgr_event_nonvacuous,
+   C04_self_delimiting_nonvacuous, C04_chunking_nonvacuous.  Spec decisions in `wf`: CSI 1;nR is the
+   modified F3 for n = 2..8 and the cursor report otherwise (PC-style F3 with mask >= 8 is not wf);
+   DA1 attributes > 0; the six bare ESC-prefixes are not wf.  Open known finding:
+   C04-face-report-inverse (class sgr-inexpressible-report). *)
 From Coq Require Import List NArith Bool.
 From SNT Require Import Base.Outcome Base.Dec10 Automata.DfaData Automata.Tokenizer.
 From SNT Require Import Render.FaceModel Decoder.SgrRef.
